@@ -268,6 +268,34 @@ def run(case, j):
         b = M.pointwise_global_reconstruction_error(X, Y, train_idx=tr, test_idx=te, estimator=e())
         j.close("LRE with all training points as neighbours == pointwise GRE", a, b, 1e-8 * max(1.0, float(np.abs(b).max())))
         j.note("relations_judged")
+    if len(te) and len(tr) >= 4:
+        # a user scaler that only rescales (with_mean=False): the local fit still centres on the neighbourhood - here on
+        # all training points - so the value is the explicit centred ridge on the merely rescaled data
+        from skmatter.preprocessing import StandardFlexibleScaler as _SFS
+
+        def scale_only(A_tr, A_te):
+            sd = np.sqrt(((A_tr - A_tr.mean(axis=0)) ** 2).mean(axis=0).sum())
+            return A_tr / sd, A_te / sd
+
+        Xa0, Xb0 = scale_only(X[tr] * 1.0, X[te] * 1.0)
+        Ya0, Yb0 = scale_only(Y[tr] * 1.0, Y[te] * 1.0)
+        for kk_ in sorted({len(tr), max(2, min(nloc, len(tr)))}):
+            D2_ = ((Xb0[:, None, :] - Xa0[None, :, :]) ** 2).sum(-1)
+            ref0, uniq_ = np.zeros(len(te)), True
+            for i in range(len(te)):
+                order = np.argsort(D2_[i])
+                if kk_ < len(tr) and D2_[i][order[kk_]] - D2_[i][order[kk_ - 1]] <= 1e-9 * max(D2_[i][order[kk_]], 1e-300):
+                    uniq_ = False
+                nb = order[:kk_]
+                mx0, my0 = Xa0[nb].mean(axis=0), Ya0[nb].mean(axis=0)
+                A0 = Xa0[nb] - mx0
+                W0 = np.linalg.solve(A0.T @ A0 + case["alpha"] * np.eye(f), A0.T @ (Ya0[nb] - my0))
+                ref0[i] = np.linalg.norm(Yb0[i] - (my0 + (Xb0[i] - mx0) @ W0))
+            if uniq_:
+                got0 = j.lib("pointwise LRE with a scale-only scaler", M.pointwise_local_reconstruction_error, X, Y, kk_, train_idx=tr, test_idx=te, estimator=e(), scaler=_SFS(with_mean=False))
+                j.close("pointwise LRE with a scale-only user scaler == explicit centred local ridge on the rescaled data", got0, ref0, 1e-7 * max(1.0, float(ref0.max())), {"k": kk_, "n_train": len(tr)})
+                j.note("lre_calls")
+                j.note("scale_only_scalers_judged")
         j.note("lre_calls")
     # ---- explicit reference implementation of the documented definitions (Ridge, default scaler)
     if len(te) and len(tr) >= 4:
